@@ -9,6 +9,7 @@
  *   links  = per table index  "x" (memory was freed: ASan poisoned)  or
  *            next,prev,parent,children,name,value   ("-" = NULL, "?" = pointer to no known node)
  *   result = X (guard of the history language failed, call not made) | P<idx> | Z<int> | L<visit sequence>
+ *            (parse: Z0 = mpt_parse_node answered 0, Z-1 = an error code)
  *            | L<idx>:<depth>. ... >P<idx> (walk: handler calls with the depth it was told, node returned)
  *
  * Nodes enter the table when mpt_node_new() allocates them (this file compiles node_new.c
@@ -27,6 +28,7 @@
 #include <sanitizer/lsan_interface.h>
 #include "meta.h"
 #include "node.h"
+#include "parse.h"
 
 #define MAXN 512
 static uintptr_t tabx[MAXN];
@@ -122,9 +124,16 @@ static int name_code(const MPT_STRUCT(node) *n)
 	if (!id->_charset && id->_len == 1 && d[0] == 'a' && !mpt_node_ident(n)) return 5;
 	return 9;
 }
+/* values: 0 none, 1..3 the harness metatype, 4 a value made by the library for a parsed option (its text is
+ * always "v"), 8 anything else */
+static int own_meta(const MPT_STRUCT(node) *n) { return n->_meta && n->_meta->_vptr == &hmeta_ctl; }
 static int val_code(const MPT_STRUCT(node) *n)
 {
-	return n->_meta ? ((const struct hmeta *) n->_meta)->val : 0;
+	const char *s = 0;
+	if (!n->_meta) return 0;
+	if (own_meta(n)) return ((const struct hmeta *) n->_meta)->val;
+	if (MPT_metatype_convert(n->_meta, 's', &s) >= 0 && s && !strcmp(s, "v")) return 4;
+	return 8;
 }
 /* pointer is NULL or a live table node */
 static int okp(const MPT_STRUCT(node) *n) { int i = idx(n); return i == -1 || (i >= 0 && !is_freed(i)); }
@@ -146,7 +155,7 @@ static int wf(void)
 		for (m = n, k = 0; m; m = m->next) { if (++k > ntab + 2 || !okp(m)) return 0; }
 		/* values: every live node owns its metatype alone */
 		if (n->_meta) {
-			++nval;
+			if (own_meta(n)) ++nval;
 			for (j = 0; j < i; j++) if (!is_freed(j) && NODE(j)->_meta == n->_meta) return 0;
 		}
 	}
@@ -271,6 +280,30 @@ static void query(const char *q, const void **ident, size_t *len, int *charset)
 static const char *name_arg(const char *nm)
 {
 	return !strcmp(nm, "-") ? 0 : !strcmp(nm, "L") ? LONGNAME : !strcmp(nm, "M") ? MIDNAME : nm;
+}
+
+/* ---- mpt_parse_node: the text comes from a string ---- */
+static int text_getc(void *ptr)
+{
+	const char **pos = ptr;
+	if (!**pos) return -2;   /* end of input */
+	return (unsigned char) *((*pos)++);
+}
+static char *unhex(const char *h)
+{
+	size_t i, n = strcmp(h, "-") ? strlen(h) / 2 : 0;
+	char *s = malloc(n + 1);
+	for (i = 0; i < n; i++) { unsigned v; sscanf(h + 2 * i, "%2x", &v); s[i] = (char) v; }
+	s[n] = 0;
+	return s;
+}
+/* the scratch node of mpt_parse_node lives on its stack: the table index the model gives it is
+ * taken by a block that is released already (reads as "x") */
+static void learn_scratch(void)
+{
+	void *d = malloc(sizeof(MPT_STRUCT(node)));
+	free(d);
+	learn(d);
 }
 
 static int lsan_every = 1, case_no;
@@ -408,6 +441,41 @@ static void run_case(int ntok, char **tok)
 			else {
 				walk_n = 0; walk_stop = k;
 				res_walk(mpt_gnode_traverse(NODE(x), fl | order_flag(o), walk_fcn, 0));
+			}
+		}
+		else if (!strcmp(op, "parse")) {
+			/* parse <root> <K|E> <text in hex> <tree the text denotes (for the model)> */
+			int x = vh_int(tok[t++]);
+			const char *hex = tok[t + 1];
+			t += 3;
+			if (!live(x)) vh_tok("X");
+			else {
+				MPT_STRUCT(parser_context) ctx = MPT_PARSER_INIT;
+				char *text = unhex(hex);
+				const char *pos = text;
+				int ret;
+				learn_scratch();
+				ctx.src.getc = text_getc;
+				ctx.src.arg = &pos;
+				ret = mpt_parse_node(NODE(x), &ctx, 0);
+				free(text);
+				vh_tok("Z%d", ret < 0 ? -1 : ret > 0 ? 1 : 0);
+			}
+		}
+		else if (!strcmp(op, "zparse")) {
+			/* the calls mpt_parse_node refuses: no root, no parser context, a format that selects no parser */
+			int x = vh_int(tok[t++]);
+			if (!live(x)) vh_tok("X");
+			else {
+				MPT_STRUCT(parser_context) ctx = MPT_PARSER_INIT;
+				const char *pos = "a = v\n";
+				int r1, r2, r3;
+				ctx.src.getc = text_getc;
+				ctx.src.arg = &pos;
+				r1 = mpt_parse_node(0, &ctx, 0);
+				r2 = mpt_parse_node(NODE(x), 0, 0);
+				r3 = mpt_parse_node(NODE(x), &ctx, "{?");
+				vh_tok("Z%d", (r1 < 0 && r2 < 0 && r3 < 0) ? -1 : 0);
 			}
 		}
 		/* ---- entry points with a NULL node ---- */
